@@ -30,11 +30,22 @@ pub mod kzg10 {
     impl Randomness {
 //@stub from=kzg10.rs id=kzg10.Randomness.rand
 //@stub from=kzg10.rs id=kzg10.Randomness.empty
+//@fn id=kzg10.Randomness.add_assign_scaled file=poly-commit/src/kzg10/data_structures.rs scope="impl<'a, F: PrimeField, P: DenseUVPolynomial<F>> AddAssign<\(F, &'a Randomness<F, P>\)>\s+for Randomness<F, P>" name=add_assign props=C08,C01
+        pub fn add_assign_scaled(&mut self, q: (Fr, &Randomness))
+        ensures
+            forall|x: FS| #[trigger] final(self).blinding_polynomial.ev(x) == f_add(old(self).blinding_polynomial.ev(x), f_mul(q.0@, q.1.blinding_polynomial.ev(x))),   // name=kzg10.Randomness.add_assign_scaled.linear props=C08,C01
+            final(self).blinding_polynomial.coeffs@.len() <= (if old(self).blinding_polynomial.coeffs@.len() >= q.1.blinding_polynomial.coeffs@.len() { old(self).blinding_polynomial.coeffs@.len() } else { q.1.blinding_polynomial.coeffs@.len() }),
+//@body
+//@destructure q = (f, other)
+//@end
     }
     pub struct KZG10;
     impl KZG10 {
 //@stub from=kzg10.rs id=kzg10.commit
 //@stub from=kzg10.rs id=kzg10.check_degrees_and_bounds
+//@stub from=kzg10.rs id=kzg10.compute_witness_polynomial
+//@stub from=kzg10.rs id=kzg10.open_with_witness_polynomial
+//@stub from=kzg10.rs id=kzg10.open
     }
 }
 //@struct file=poly-commit/src/marlin/marlin_pc/data_structures.rs name=Commitment
@@ -45,6 +56,9 @@ pub open spec fn ck_wf(ck: &CommitterKey) -> bool {
     && (ck.enforced_degree_bounds is Some ==> sorted_usize(ck.enforced_degree_bounds->Some_0@))
     && (ck.shifted_powers is Some ==> (ck.enforced_degree_bounds is Some && ck.enforced_degree_bounds->Some_0@.len() > 0
         && ck.enforced_degree_bounds->Some_0@.last() <= ck.shifted_powers->Some_0@.len()))
+    // trim provides shifted powers exactly when some bound is enforced
+    && ((ck.enforced_degree_bounds is Some && ck.enforced_degree_bounds->Some_0@.len() > 0) ==> ck.shifted_powers is Some)
+    && (ck.enforced_degree_bounds is Some && ck.enforced_degree_bounds->Some_0@.len() > 0 ==> ck.enforced_degree_bounds->Some_0@.last() < 0x4000_0000_0000_0000)
 }
 #[verifier::external_body] pub fn cow_from_slice(s: &[G1Affine]) -> (r: Vec<G1Affine>) ensures r@ == s@ { unimplemented!() }
 impl CommitterKey {
@@ -78,9 +92,11 @@ pub proof fn lemma_from_coeffs_ev(r: &Poly, v: Seq<Fr>, x: FS)
 pub fn shift_polynomial(ck: &CommitterKey, p: &Poly, degree_bound: usize) -> (r: Poly)
     requires
         !p.is_zero_spec() ==> (ck.enforced_degree_bounds is Some && ck.enforced_degree_bounds->Some_0@.len() > 0 && degree_bound <= ck.enforced_degree_bounds->Some_0@.last()),
+        p.coeffs@.len() + (if ck.enforced_degree_bounds is Some && ck.enforced_degree_bounds->Some_0@.len() > 0 { ck.enforced_degree_bounds->Some_0@.last() as int } else { 0 }) < usize::MAX,
     ensures
         // X^(max_bound - d) * p(X)
         forall|x: FS| #[trigger] r.ev(x) == (if p.is_zero_spec() { f_zero() } else { f_mul(f_pow(x, (ck.enforced_degree_bounds->Some_0@.last() - degree_bound) as nat), p.ev(x)) }),   // name=marlin_pc.shift_polynomial.multiplies_by_x_to_the_shift props=C04,C01
+        r.wf(), p.is_zero_spec() ==> r.coeffs@.len() == 0, !p.is_zero_spec() ==> r.coeffs@.len() <= ck.enforced_degree_bounds->Some_0@.last() - degree_bound + p.coeffs@.len(),
 //@body
 //@rw * /\.expect\("Polynomial requires degree bounds, but `ck` does not support any"\)/ => .unwrap_abort()
 //@rw * /vec!\[E::ScalarField::zero\(\); largest_enforced_degree_bound - degree_bound\]/ => vec_zero(*largest_enforced_degree_bound - degree_bound)
@@ -154,4 +170,55 @@ impl MarlinKZG10 {
                 forall|i: int| 0 <= i < it.index@ ==> marlin_admissible(ck, (#[trigger] polynomials@[i])) && marlin_commit_one(ck, polynomials@[i], &commitments@[i], &states@[i])
                     && (polynomials@[i].hiding_bound is Some ==> rng_present),
 //@end
+
+//@fn id=marlin_pc.open file=poly-commit/src/marlin/marlin_pc/mod.rs scope="impl<E, P> PolynomialCommitment<E::ScalarField, P> for MarlinKZG10<E, P>" name=open props=C11,C04,C17,C01
+    fn open<'a>(ck: &CommitterKey, labeled_polynomials: Vec<&'a LabeledPolynomial>, _commitments: Vec<&'a LabeledCommitment<Commitment>>, point: &'a Fr, sponge: &mut Sponge,
+                states: Vec<&'a Randomness>, _rng: Option<&mut Rng>) -> (res: Result<kzg10::Proof, Error>)
+    requires
+        ck_wf(ck),
+        forall|i: int| 0 <= i < labeled_polynomials@.len() ==> (#[trigger] labeled_polynomials@[i]).polynomial.wf() && labeled_polynomials@[i].polynomial.coeffs@.len() < 0x4000_0000_0000_0000,
+    ensures
+        // the prover squeezes exactly like the verifier: one challenge per polynomial and one more per degree-bounded polynomial
+        res is Ok ==> final(sponge).st@ == sp_iter(old(sponge).st@, open_nsq(labeled_polynomials@, min(labeled_polynomials@.len(), states@.len()))),   // name=marlin_pc.open.squeeze_schedule_matches_verifier props=C11
+        res is Ok ==> (forall|i: int| 0 <= i < min(labeled_polynomials@.len(), states@.len()) ==> marlin_admissible_open(ck, (#[trigger] labeled_polynomials@[i]))),   // name=marlin_pc.open.bound_violations_are_refused props=C04,C17
+        res is Ok ==> (forall|i: int| 0 <= i < min(labeled_polynomials@.len(), states@.len()) ==> (#[trigger] labeled_polynomials@[i]).degree_bound.is_some() == states@[i].shifted_rand.is_some()),
+//@body
+//@rw * /\b(p|r|shifted_w|shifted_r|shifted_r_witness) \+= \((challenge_j(?:_1)?), ([^;]*)\);/ => \1.add_assign_scaled((\2, \3));
+//@rw * /ck\.shifted_powers\(None\)/ => ck.shifted_powers(None)
+//@rw * /let shifted_witness = shift_polynomial\(ck, &witness, degree_bound\);/ => let shifted_witness = shift_polynomial(ck, &witness, degree_bound);
+//@closure |bounds| => |bounds: &Vec<usize>| -> (sl: &[usize]) ensures sl@ == bounds@
+//@closure |v| => |v: Fr| -> (o: Fr) ensures o@ == f_add(v@, shifted_random_v@)
+//@loop 1 kw=for name=it
+            invariant ck_wf(ck), it.index@ <= min(labeled_polynomials@.len(), states@.len()),
+                sponge.st@ == sp_iter(old(sponge).st@, open_nsq(labeled_polynomials@, it.index@ as nat)),
+                forall|i: int| 0 <= i < labeled_polynomials@.len() ==> (#[trigger] labeled_polynomials@[i]).polynomial.wf() && labeled_polynomials@[i].polynomial.coeffs@.len() < 0x4000_0000_0000_0000,
+                enforce_degree_bound ==> ck.shifted_powers is Some,
+                forall|i: int| 0 <= i < it.index@ ==> marlin_admissible_open(ck, (#[trigger] labeled_polynomials@[i])) && labeled_polynomials@[i].degree_bound.is_some() == states@[i].shifted_rand.is_some(),
+                p.wf(), shifted_w.wf(), p.coeffs@.len() < 0x4000_0000_0000_0000, shifted_w.coeffs@.len() < 0x8000_0000_0000_0000,
+//@loopstart 1
+            proof { reveal_with_fuel(sp_iter, 3); }
+//@end
+}
+impl Poly {
+    // `p += (f, &q)` as a method (the operator desugars to AddAssign::add_assign)
+    #[verifier::external_body] pub fn add_assign_scaled(&mut self, q: (Fr, &Poly))
+        ensures forall|x: FS| #[trigger] final(self).ev(x) == f_add(old(self).ev(x), f_mul(q.0@, q.1.ev(x))), final(self).wf(),
+                final(self).coeffs@.len() <= (if old(self).coeffs@.len() >= q.1.coeffs@.len() { old(self).coeffs@.len() } else { q.1.coeffs@.len() }),
+    { unimplemented!() }
+}
+//@spec marlin_sched_spec
+// C11, Marlin: prover (open) and verifier (accumulate / check) squeeze the same number of challenges whenever the degree-bound
+// pattern of the polynomials equals that of the commitments, so from equal sponge states they end in equal states
+//@lemma props=C11
+pub proof fn lemma_marlin_lockstep(ps: Seq<&LabeledPolynomial>, cs: Seq<&LabeledCommitment<Commitment>>, s: SS, k: nat)
+    requires k <= ps.len(), k <= cs.len(), forall|i: int| 0 <= i < k ==> (#[trigger] ps[i]).degree_bound.is_some() == cs[i].degree_bound.is_some()
+    ensures open_nsq(ps, k) == nsq(cs, k), sp_iter(s, open_nsq(ps, k)) == sp_iter(s, nsq(cs, k))
+    decreases k
+{ if k > 0 { lemma_marlin_lockstep(ps, cs, s, (k - 1) as nat); } }
+pub open spec fn open_nsq(ps: Seq<&LabeledPolynomial>, k: nat) -> nat decreases k {
+    if k == 0 { 0 } else { open_nsq(ps, (k - 1) as nat) + 1 + (if ps[k - 1].degree_bound is Some { 1nat } else { 0nat }) }
+}
+pub open spec fn marlin_admissible_open(ck: &CommitterKey, p: &LabeledPolynomial) -> bool {
+    p.degree_bound is Some ==> (ck.enforced_degree_bounds is Some && ck.enforced_degree_bounds->Some_0@.contains(p.degree_bound->Some_0)
+            && p.polynomial.degree_spec() <= p.degree_bound->Some_0 && p.degree_bound->Some_0 <= ck.max_degree)
 }
